@@ -1,1 +1,2 @@
 import Dalek.Props.C05.Backends
+import Dalek.Props.C05.Refinement
